@@ -54,9 +54,9 @@ CASES = {'quick': 640, 'thorough': 40000}
 SHARDS = {'quick': 16, 'thorough': 16}
 RULE = ('Hypothesis draws (log10 R, log10 rho, l, log10 m_l, arg mu, integrator, configuration, nondimensionalize, slices, '
         'log10 r0/R, log10 rtol, log10 K-factor, log10 w^2R/g); |mu| is computed from m_l. Non-trivial = both solves '
-        'succeeded, convergence delta <= 1e-4 and 1e-2 <= |m_l| <= 1e3; distinct = distinct argument hash.')
+        'succeeded, convergence delta <= 1e-4 and 1e-3 <= |m_l| <= 1e3; distinct = distinct argument hash.')
 ASSUMPTIONS = ['closed form k_l = 3/(2(l-1))/(1+m_l), m_l=(2l^2+4l+3)mu/(l rho g R) (Love 1911; e.g. Munk & MacDonald 1960)',
-               'tolerance 1e-6 + 50*delta + 30(|mu|+rho g R)/K + 30 w^2 R/g', 'unconverged (delta > 1e-4) cases are discarded']
+               'tolerance 1e-6 + 50*delta + 30(|mu|+rho g R)/K_compressible_layers + 30 w^2 R/g (x (1 + 0.02/m_l) for m_l < 1e-2)', 'unconverged (delta > 1e-4) cases are discarded']
 
 CONFIGS = {
     'static_comp_takeuchi': (True, False, False),
@@ -76,7 +76,7 @@ UNIMPLEMENTED = list(CONFIGS)[5:]
 def strategy(tier):
     return st.fixed_dictionaries({
         'logR': st.floats(5.0, 8.0), 'logrho': st.floats(2.7, 4.3), 'l': st.integers(2, 10),
-        'logm': st.floats(-2.0, 3.0), 'arg': st.floats(0.0, 1.5),
+        'logm': st.floats(-3.0, 3.0), 'arg': st.floats(0.0, 1.5),
         'method': st.sampled_from(['RK23', 'RK45', 'DOP853']),
         'config': st.sampled_from(IMPLEMENTED * 4 + UNIMPLEMENTED),
         'nondim': st.booleans(), 'n': st.integers(20, 200),
@@ -84,6 +84,11 @@ def strategy(tier):
         'logKf': st.floats(6.0, 9.0), 'u_w': st.floats(0.0, 1.0),
         # the tidal numbers must come out the same when other solution types are solved in the same call
         'solve_for': st.sampled_from([['tidal'], ['tidal'], ['tidal', 'loading'], ['loading', 'tidal'], ['free', 'tidal', 'loading']]),
+        # the same uniform sphere handed to the solver as a stack of 1-3 solid layers of identical material whose layers may carry
+        # different static / incompressible flags (only the innermost layer needs a starting-condition family, so the upper
+        # layers also reach the static-incompressible equations, which have no starting conditions of their own)
+        'upper': st.one_of(st.just([]), st.just([]),
+                           st.lists(st.tuples(st.floats(0.15, 0.9), st.booleans(), st.booleans()), min_size=1, max_size=2)),
     })
 
 
@@ -100,15 +105,16 @@ def fixed_cases(tier):
 
 
 def required_labels(tier):
-    return ['cfg:' + c for c in CONFIGS] + ['solve_for:1', 'solve_for:2', 'solve_for:3', 'method:RK23', 'method:RK45', 'method:DOP853', 'nondim:True', 'nondim:False']
+    return ['cfg:' + c for c in CONFIGS] + ['layers:1', 'layers:2', 'layers:3', 'upper:static_incomp', 'upper:static_comp', 'upper:dynamic_incomp', 'upper:dynamic_comp', 'solve_for:1', 'solve_for:2', 'solve_for:3', 'method:RK23', 'method:RK45', 'method:DOP853', 'nondim:True', 'nondim:False']
 
 
 def in_domain(c):
     try:
-        return (5 <= c['logR'] <= 8 and 2.7 <= c['logrho'] <= 4.3 and 2 <= c['l'] <= 10 and -2 <= c['logm'] <= 3
+        return (5 <= c['logR'] <= 8 and 2.7 <= c['logrho'] <= 4.3 and 2 <= c['l'] <= 10 and -3 <= c['logm'] <= 3
                 and 0 <= c['arg'] <= 1.5 and 20 <= c['n'] <= 200 and -2.5 <= c['logr0'] <= -1 and -9 <= c['logrtol'] <= -6
                 and 6 <= c['logKf'] <= 9 and 0 <= c['u_w'] <= 1 and c['config'] in CONFIGS
-                and c['method'] in ('RK23', 'RK45', 'DOP853') and 'tidal' in c.get('solve_for', ['tidal']))
+                and c['method'] in ('RK23', 'RK45', 'DOP853') and 'tidal' in c.get('solve_for', ['tidal'])
+                and len(c.get('upper', [])) <= 2 and all(0.15 <= u[0] <= 0.9 for u in c.get('upper', [])))
     except Exception:
         return False
 
@@ -137,12 +143,38 @@ def build(case):
     spec = rc.homogeneous_spec(R, rho, mu, K, l, freq, n=int(case['n']), r0_frac=r0, static=static, incomp=incomp,
                                use_kamata=kamata, method=case['method'], rtol=rtol, atol=rtol * 1e-4,
                                nondim=bool(case['nondim']), solve_for=list(case.get('solve_for', ['tidal'])))
-    return spec, dict(R=R, rho=rho, l=l, mu=mu, mu_abs=mu_abs, g=g, K=K, w2=w2, rtol=rtol, m_abs=m_abs)
+    upper = [list(u) for u in case.get('upper', [])]
+    if upper:
+        # interface radii: increasing fractions of R, at least 5 % of R apart and above the start radius; every interface is
+        # sampled on both sides (rs_common `iface_eps`): the solver starts an upper layer at that layer's first slice, so a gap
+        # between the interface and the next slice would not be integrated at all
+        fr = sorted(min(0.9, max(0.15, float(u[0]))) for u in upper)
+        if len(fr) == 2 and fr[1] - fr[0] < 0.05:
+            fr[1] = fr[0] + 0.05
+        base = spec['layers'][0]
+        n_each = max(8, int(case['n']) // (len(upper) + 1))
+        layers = [dict(base, top_frac=fr[0], n=n_each)]
+        for j, u in enumerate(upper):
+            layers.append(dict(base, static=bool(u[1]), incomp=bool(u[2]), n=n_each,
+                               top_frac=fr[j + 1] if j + 1 < len(fr) else 1.0))
+        spec['layers'] = layers
+        spec['iface_eps'] = 1e-13
+    # a layer flagged incompressible is documented to ignore its bulk modulus: give it a realistic finite one (1e9..1e12 Pa)
+    # instead of the near-infinite value of the compressible-limit route, so that equations which do use it are noticed
+    for L in spec['layers']:
+        if L['incomp']:
+            L['K'] = 10.0 ** (9.0 + (float(case['logKf']) - 6.0))
+    comp_K = [L['K'] for L in spec['layers'] if not L['incomp']]
+    return spec, dict(R=R, rho=rho, l=l, mu=mu, mu_abs=mu_abs, g=g, K=K, w2=w2, rtol=rtol, m_abs=m_abs,
+                      K_comp=min(comp_K) if comp_K else None)
 
 
 def evaluate(case):
     spec, q = build(case)
-    labels = ['cfg:' + case['config'], 'method:' + case['method'], 'nondim:%s' % bool(case['nondim']), 'l:%d' % q['l']]
+    labels = ['cfg:' + case['config'], 'method:' + case['method'], 'nondim:%s' % bool(case['nondim']), 'l:%d' % q['l'],
+              'layers:%d' % len(spec['layers'])]
+    for L in spec['layers'][1:]:
+        labels.append('upper:%s_%s' % ('static' if L['static'] else 'dynamic', 'incomp' if L['incomp'] else 'comp'))
     if case['config'] in UNIMPLEMENTED:
         c = Collector(labels, nontrivial=False)
         try:
@@ -165,8 +197,12 @@ def evaluate(case):
         return discard('unconverged', labels)
     k, h, ll, m, g = rc.closed_form_love(q['l'], q['mu'], q['rho'], q['R'])
     err = [abs(love1[0] - k), abs(love1[1] - h), abs(love1[2] - ll)]
-    tol = 1e-6 + 50.0 * delta + 30.0 * (q['mu_abs'] + q['rho'] * q['g'] * q['R']) / q['K'] + 30.0 * q['w2']
-    nontrivial = 1e-2 <= q['m_abs'] <= 1e3
+    comp_term = 30.0 * (q['mu_abs'] + q['rho'] * q['g'] * q['R']) / q['K_comp'] if q.get('K_comp') else 0.0
+    # dynamic correction: ~ w^2 R/g for stiff bodies; for soft bodies (new domain m_l < 1e-2) the inertial term competes with the
+    # small elastic restoring force instead, ~ 0.1 (w^2 R/g) / m_l (measured 1.06e-3 at w^2R/g = 1e-5, m_l = 1e-3)
+    dyn_term = 30.0 * q['w2'] * (1.0 + (0.02 / q['m_abs'] if q['m_abs'] < 1e-2 else 0.0))
+    tol = 1e-6 + 50.0 * delta + comp_term + dyn_term
+    nontrivial = 1e-3 <= q['m_abs'] <= 1e3
     c = Collector(labels, nontrivial=nontrivial)
     c.label('m:stiff' if q['m_abs'] > 10 else 'm:soft' if q['m_abs'] < 0.1 else 'm:mid')
     regime = 'regular'
@@ -174,7 +210,8 @@ def evaluate(case):
         regime = 'quasi_static_low_order'        # see KF-C01-dynamic-incomp-quasi-static
     c.label('regime:' + regime)
     for name, e, ref, got in zip('khl', err, (k, h, ll), love1):
-        c.check(e <= tol, {'clause': 'closed_form', 'number': name, 'config': case['config'], 'regime': regime},
+        c.check(e <= tol, {'clause': 'closed_form', 'number': name, 'config': case['config'], 'regime': regime,
+                           'stack': 'single' if len(spec['layers']) == 1 else 'split'},
                 '%s: solver %r closed form %r |diff| %.3e tol %.3e (delta %.2e) spec=%r' % (name, complex(got), ref, e, tol, delta, q))
     return c.result()
 
